@@ -866,6 +866,129 @@ theorem adaptive_euler_global_error (a tol : ℝ) (ha : a ≤ 0) (h u : Nat → 
 
 end real
 
+/-! ### adaptive Euler on `u' = a u`, `a ≤ 0`: the whole loop of the model (real numbers) -/
+
+section eulerGlobal
+open Real
+
+theorem zipWith_map_map {α β γ δ : Type} (g : β → γ → δ) (h1 : α → β) (h2 : α → γ) (us : List α) :
+    List.zipWith g (us.map h1) (us.map h2) = us.map (fun u => g (h1 u) (h2 u)) := by
+  induction us with
+  | nil => rfl
+  | cons u us ih => simp [ih]
+
+theorem forall₂_and_mem {α β : Type} (P : α → β → Prop) (Q : α → Prop) :
+    ∀ (xs : List α) (ys : List β), List.Forall₂ P xs ys → (∀ x ∈ xs, Q x) →
+      List.Forall₂ (fun x y => P x y ∧ Q x) xs ys := by
+  intro xs ys h
+  induction h with
+  | nil => intro _; exact List.Forall₂.nil
+  | cons hxy _ ih =>
+    intro hq
+    exact List.Forall₂.cons ⟨hxy, hq _ (List.mem_cons_self)⟩
+      (ih (fun x hx => hq x (List.mem_cons_of_mem _ hx)))
+
+/-- invariant of the adaptive Euler loop on `u' = a u`: the carried rate is the rate of the
+current state and every cell is within `steps * tol` of the exact solution -/
+def EulerInv (a tol t0 : ℝ) (u0s : List ℝ) (e : EState ℝ) : Prop :=
+  e.rate = e.s.us.map (fun u => a * u)
+  ∧ List.Forall₂ (fun u u0 => |u - exp (a * (e.s.t - t0)) * u0| ≤ (e.s.steps : ℝ) * tol) e.s.us u0s
+
+theorem euler_cell_step (a h t t0 tol u u0 : ℝ) (n : Nat) (ha : a ≤ 0) (hh : 0 ≤ h)
+    (hinv : |u - exp (a * (t - t0)) * u0| ≤ (n : ℝ) * tol)
+    (hacc : |(1 + a * h) * u - (1 + a * h / 2) ^ 2 * u| ≤ tol) :
+    |(1 + a * h / 2) ^ 2 * u - exp (a * (t + h - t0)) * u0| ≤ ((n + 1 : Nat) : ℝ) * tol := by
+  have hloc := le_trans (euler_doubling_local_error a h u ha hh) hacc
+  have hE := exp_flow_nonexpansive a h ha hh
+  have e : (1 + a * h / 2) ^ 2 * u - exp (a * (t + h - t0)) * u0
+      = ((1 + a * h / 2) ^ 2 * u - exp (a * h) * u) + exp (a * h) * (u - exp (a * (t - t0)) * u0) := by
+    have : a * (t + h - t0) = a * h + a * (t - t0) := by ring
+    rw [this, exp_add]; ring
+  have h2 : |exp (a * h) * (u - exp (a * (t - t0)) * u0)| ≤ (n : ℝ) * tol := by
+    rw [abs_mul]
+    calc |exp (a * h)| * |u - exp (a * (t - t0)) * u0| ≤ 1 * |u - exp (a * (t - t0)) * u0| :=
+          mul_le_mul_of_nonneg_right hE (abs_nonneg _)
+      _ ≤ (n : ℝ) * tol := by rw [one_mul]; exact hinv
+  rw [e]
+  calc _ ≤ |(1 + a * h / 2) ^ 2 * u - exp (a * h) * u| + |exp (a * h) * (u - exp (a * (t - t0)) * u0)| :=
+        abs_add_le _ _
+    _ ≤ tol + (n : ℝ) * tol := add_le_add hloc h2
+    _ = ((n + 1 : Nat) : ℝ) * tol := by push_cast; ring
+
+theorem eulerAdaptiveLoop_global_error (C : Ctl ℝ) (a t0 tEnd : ℝ) (u0s : List ℝ) (ha : a ≤ 0)
+    (htol : 0 < C.tol) (hmin : 0 < C.dtMin) :
+    ∀ (fuel : Nat) (e : EState ℝ) (r : AState ℝ), EulerInv a C.tol t0 u0s e →
+      eulerAdaptiveLoop C (linear a) tEnd fuel e = .done r →
+      List.Forall₂ (fun u u0 => |u - exp (a * (r.t - t0)) * u0| ≤ (r.steps : ℝ) * C.tol) r.us u0s := by
+  intro fuel
+  induction fuel with
+  | zero => intro e r _ h; simp [eulerAdaptiveLoop] at h
+  | succ n ih =>
+    intro e r hinv h
+    obtain ⟨hrate, hcells⟩ := hinv
+    unfold eulerAdaptiveLoop at h
+    simp only at h
+    -- the quantities of this iteration on u' = a u
+    set hstep := dtStep C e.s.dtOpt tEnd e.s.t with hstep_def
+    have hh : 0 ≤ hstep := le_trans hmin.le (dtStep_bounds C e.s.dtOpt tEnd e.s.t).1
+    have hlarge : List.zipWith (fun u r => u + hstep * r) e.s.us e.rate
+        = e.s.us.map (fun u => (1 + a * hstep) * u) := by
+      rw [hrate, zipWith_map_right]; congr 1; funext u; ring
+    have hsmall : List.map (fun x => x + ((1 : Nat) : ℝ) / ((2 : Nat) : ℝ) * hstep
+            * linear a x (e.s.t + ((1 : Nat) : ℝ) / ((2 : Nat) : ℝ) * hstep))
+          (List.zipWith (fun u r => u + ((1 : Nat) : ℝ) / ((2 : Nat) : ℝ) * hstep * r) e.s.us e.rate)
+        = e.s.us.map (fun u => (1 + a * hstep / 2) ^ 2 * u) := by
+      rw [hrate, zipWith_map_right, List.map_map]; congr 1; funext u
+      simp only [Function.comp, linear]; push_cast; ring
+    rw [hlarge, hsmall, zipWith_map_map] at h
+    generalize hE : maxAbs (List.map (fun u => (1 + a * hstep) * u - (1 + a * hstep / 2) ^ 2 * u) e.s.us)
+      / C.tol = errRel at h
+    by_cases hacc : errRel ≤ ((1 : Nat) : ℝ)
+    · simp only [hacc, decide_true, ↓reduceIte] at h
+      have hcellacc : ∀ u ∈ e.s.us, |(1 + a * hstep) * u - (1 + a * hstep / 2) ^ 2 * u| ≤ C.tol := by
+        intro u hu
+        have hm : (1 + a * hstep) * u - (1 + a * hstep / 2) ^ 2 * u ∈
+            List.map (fun u => (1 + a * hstep) * u - (1 + a * hstep / 2) ^ 2 * u) e.s.us :=
+          List.mem_map.mpr ⟨u, hu, rfl⟩
+        exact accepted_cells_le_tol _ C.tol htol (by rw [hE]; exact hacc) _ hm
+      have hnew : List.Forall₂ (fun u u0 => |u - exp (a * (e.s.t + hstep - t0)) * u0|
+            ≤ ((e.s.steps + 1 : Nat) : ℝ) * C.tol)
+          (e.s.us.map (fun u => (1 + a * hstep / 2) ^ 2 * u)) u0s := by
+        rw [List.forall₂_map_left_iff]
+        refine (forall₂_and_mem _ _ _ _ hcells hcellacc).imp ?_
+        intro u u0 ⟨h1, h2⟩
+        exact euler_cell_step a hstep e.s.t t0 C.tol u u0 e.s.steps ha hh h1 h2
+      split_ifs at h with hcont
+      · split at h
+        · refine ih _ _ ⟨?_, hnew⟩ h
+          simp [linear]
+        · simp at h
+      · simp only [AOut.done.injEq] at h
+        subst h
+        exact hnew
+    · simp only [hacc, decide_false, Bool.false_eq_true, ↓reduceIte] at h
+      split_ifs at h with hcont
+      · split at h
+        · exact ih _ _ (by exact ⟨hrate, hcells⟩) h
+        · simp at h
+      · simp only [AOut.done.injEq] at h
+        subst h
+        exact hcells
+
+/-- **adaptive Euler on `u' = a u`, `a ≤ 0`, whole call of the model**: every cell of the
+returned state is within `(accepted steps) * tolerance` of the exact solution at the returned
+time -/
+theorem adaptive_euler_model_global_error (C : Ctl ℝ) (a : ℝ) (ha : a ≤ 0) (htol : 0 < C.tol)
+    (hmin : 0 < C.dtMin) (fuel : Nat) (us : List ℝ) (tStart tEnd dt0 : ℝ) (r : AState ℝ)
+    (h : eulerAdaptiveStepper C (linear a) fuel us tStart tEnd dt0 = .done r) :
+    List.Forall₂ (fun u u0 => |u - exp (a * (r.t - tStart)) * u0| ≤ (r.steps : ℝ) * C.tol) r.us us := by
+  refine eulerAdaptiveLoop_global_error C a tStart tEnd us ha htol hmin fuel _ r ⟨?_, ?_⟩ h
+  · simp [linear]
+  · simp only [sub_self, mul_zero, exp_zero, one_mul, Nat.cast_zero, zero_mul]
+    exact List.forall₂_same.mpr (fun _ _ => by simp)
+
+end eulerGlobal
+
 /-! ## constants of the step-size controller (extracted) -/
 
 section controller
